@@ -278,7 +278,14 @@ def f42():
     return True if not bad else f"wrong at {bad}"
 
 
-for name, fn in (("F36", f36), ("F37", f37), ("F38", f38), ("F39", f39), ("F40", f40), ("F41", f41), ("F42", f42)):
+def f43():
+    """C08: int points + float points raised UFuncTypeError before the repair"""
+    A, B = Curve([0, 0, 1, 1], [1, 2]), Curve([0, 0, 1, 1], [1.5, 2.5])
+    C = A + B
+    return True if C(F(1, 2)) == A(F(1, 2)) + B(F(1, 2)) else C(F(1, 2))
+
+
+for name, fn in (("F36", f36), ("F37", f37), ("F38", f38), ("F39", f39), ("F40", f40), ("F41", f41), ("F42", f42), ("F43", f43)):
     if len(sys.argv) > 1 and name not in sys.argv[1:]:
         continue
     t(name, fn)
